@@ -33,7 +33,9 @@ ExpectedItemKind(kind, n) == IF kind = "CHOICE" THEN {"enum"} ELSE {"struct", "u
 CanReachOwner(m, owner, srcClosure) == \E i \in 1..Len(m.refs) : m.refs[i] = owner \/ <<m.refs[i], owner>> \in srcClosure
 
 \* rasn has one type for OBJECT IDENTIFIER and RELATIVE-OID values
-ClassMatches(src, obs) == obs = src \/ (src = "RELOID" /\ obs = "OID")
+\* an object-class field type that names a fixed-type value field stands for that field's type (X.681 14.1; the class the
+\* generator grammar declares has  &id INTEGER)
+ClassMatches(src, obs) == obs = src \/ (src = "RELOID" /\ obs = "OID") \/ (src = "CLASSFIELD" /\ obs = "INTEGER")
 
 MemberOK(kind, s, o, owner, srcClosure) ==
     /\ o.name = s.name
